@@ -49,6 +49,7 @@ DISPATCH = {
 
 
 def run(ctx, obs):
+    tau_a_formula(ctx, obs)
     putmask_values(ctx, obs)
     isotropic_fast_path(ctx, obs)
     # Kendall tau-a: the second sort (by x) must keep the y-order inside x-ties, which the first sort established - both go
@@ -292,3 +293,65 @@ def putmask_values(ctx, obs, rule='API', prefix=None):
                       f'putmask reads values by flat position, so entries land in the wrong (i, j) cells when a vector has zero norm',
                       '', where(prog, f, c))
     obs.analysed['putmask_calls'] = n
+
+
+def tau_a_formula(ctx, obs, rule='POLY'):
+    """Kendall tau-a from the sorted-rank algorithm: with tot = n(n-1)/2 pairs, xtie / ytie pairs tied in x / y, ntie pairs tied in
+    both and dis discordant pairs,  tot = con + dis + (xtie - ntie) + (ytie - ntie) + ntie, hence
+        con - dis = tot - xtie - ytie + ntie - 2*dis         and        tau_a = (con - dis) / tot.
+    The numerator is compared as a polynomial (normal form) over the five quantities, each identified by how it is computed
+    (tot from size, xtie / ytie from _count_rank_tie of the two rank vectors, dis from _kendall_dis, ntie from the joint-tie count)."""
+    from ..rules import poly
+    prog = ctx.prog
+    q = M + '_tau_a'
+    f = prog.func(q)
+    roles = {}
+    order = []
+    for s in f.node.body:
+        if not isinstance(s, ast.Assign):
+            continue
+        t, v = s.targets[0], s.value
+        if isinstance(t, ast.Name) and isinstance(v, ast.Call) and _leaf_name(v.func) == '_kendall_dis':
+            roles[t.id] = 'dis'
+        elif isinstance(t, ast.Tuple) and isinstance(v, ast.Call) and _leaf_name(v.func) == '_count_rank_tie' and t.elts \
+                and isinstance(t.elts[0], ast.Name):
+            order.append(t.elts[0].id)
+        elif isinstance(t, ast.Name) and isinstance(v, ast.BinOp) and isinstance(v.op, ast.FloorDiv) \
+                and any(isinstance(n, ast.Name) and n.id == 'size' for n in ast.walk(v)):
+            roles[t.id] = 'tot'
+        elif isinstance(t, ast.Name) and isinstance(v, ast.Call) and _leaf_name(v.func) == 'sum' \
+                and any(isinstance(n, ast.Name) and n.id == 'cnt' for n in ast.walk(v)):
+            roles[t.id] = 'ntie'
+    for nm, role in zip(order, ('xtie', 'ytie')):
+        roles[nm] = role
+    if not set(roles.values()) >= {'dis', 'tot', 'xtie', 'ytie'}:
+        obs.unk(rule, q, 'tau-a numerator', f'quantities not all identified: {sorted(roles.values())}', where(prog, f, f.node))
+        return
+    num = None
+    for s in f.node.body:
+        if isinstance(s, ast.Assign) and isinstance(s.targets[0], ast.Name) and isinstance(s.value, ast.BinOp) \
+                and {n.id for n in ast.walk(s.value) if isinstance(n, ast.Name)} >= {k for k, v in roles.items() if v in ('tot', 'dis')}:
+            num = s
+    if num is None:
+        obs.unk(rule, q, 'tau-a numerator', 'no assignment combining tot and dis', where(prog, f, f.node))
+        return
+
+    def leaf(e):
+        if isinstance(e, ast.Name) and e.id in roles:
+            return poly.sym(roles[e.id])
+        return None
+    got = poly.from_expr(num.value, leaf)
+    want = poly.add(poly.add(poly.add(poly.add(poly.sym('tot'), poly.sym('xtie'), -1), poly.sym('ytie'), -1), poly.sym('ntie')),
+                    poly.mul(poly.const(2), poly.sym('dis')), -1)
+    if got is None:
+        obs.unk(rule, q, 'concordant minus discordant pairs = tot - xtie - ytie + ntie - 2 dis', f'`{norm(num)}` is not a polynomial in the '
+                f'five quantities', where(prog, f, num))
+    else:
+        obs.check(got == want, rule, q, 'concordant minus discordant pairs = tot - xtie - ytie + ntie - 2 dis',
+                  f'`{norm(num)}` is {poly.show(got)}: pairs tied in both RDMs are ' +
+                  ('not added back (they were subtracted twice, once with xtie and once with ytie)' if ('ntie',) not in got else 'mis-counted'),
+                  '', where(prog, f, num))
+
+
+def _leaf_name(fn):
+    return fn.attr if isinstance(fn, ast.Attribute) else (fn.id if isinstance(fn, ast.Name) else '')
